@@ -11,6 +11,7 @@ import Aegean.Proofs.Real
 import Aegean.Model.C16
 import Mathlib.Tactic.Linarith
 import Mathlib.Tactic.FieldSimp
+import Mathlib.Tactic.LinearCombination
 
 namespace Aegean.C16
 open Aegean.Model.C16 Real
@@ -73,5 +74,38 @@ theorem radialInv_zero (p : Proj) : radialInv p (0 : ℝ) = 0 := by
     have : (⟨1, 0⟩ : ℂ) = ((1 : ℝ) : ℂ) := by apply Complex.ext <;> simp
     rw [this]; exact Complex.arg_ofReal_of_nonneg zero_le_one
   cases p <;> simp [radialInv, h]
+
+/-! ### the linear (CD / PC·CDELT / CROTA) part is invertible -/
+
+/-- **lin_inverse**: `CD⁻¹ · (CD · (p − CRPIX)) + CRPIX = p` whenever the matrix is non-singular — so a
+    rotated, skewed or mirrored pixel grid is inside the model -/
+theorem lin_inverse (h : ZenHdr ℝ) (hdet : h.cd11 * h.cd22 - h.cd12 * h.cd21 ≠ 0) (p1 p2 : ℝ) :
+    linInv h (linFwd h p1 p2).1 (linFwd h p1 p2).2 = (p1, p2) := by
+  simp only [linInv, linFwd]
+  have e1 : h.cd22 * (h.cd11 * (p1 - h.crpix1) + h.cd12 * (p2 - h.crpix2))
+      - h.cd12 * (h.cd21 * (p1 - h.crpix1) + h.cd22 * (p2 - h.crpix2))
+      = (h.cd11 * h.cd22 - h.cd12 * h.cd21) * (p1 - h.crpix1) := by ring
+  have e2 : h.cd11 * (h.cd21 * (p1 - h.crpix1) + h.cd22 * (p2 - h.crpix2))
+      - h.cd21 * (h.cd11 * (p1 - h.crpix1) + h.cd12 * (p2 - h.crpix2))
+      = (h.cd11 * h.cd22 - h.cd12 * h.cd21) * (p2 - h.crpix2) := by ring
+  rw [e1, e2, mul_div_cancel_left₀ _ hdet, mul_div_cancel_left₀ _ hdet]
+  refine Prod.ext ?_ ?_ <;> simp
+
+theorem lin_inverse' (h : ZenHdr ℝ) (hdet : h.cd11 * h.cd22 - h.cd12 * h.cd21 ≠ 0) (x y : ℝ) :
+    linFwd h (linInv h x y).1 (linInv h x y).2 = (x, y) := by
+  simp only [linInv, linFwd, add_sub_cancel_right]
+  set D := h.cd11 * h.cd22 - h.cd12 * h.cd21 with hD
+  have e1 : h.cd11 * ((h.cd22 * x - h.cd12 * y) / D) + h.cd12 * ((h.cd11 * y - h.cd21 * x) / D) = D * x / D := by
+    rw [hD]; ring
+  have e2 : h.cd21 * ((h.cd22 * x - h.cd12 * y) / D) + h.cd22 * ((h.cd11 * y - h.cd21 * x) / D) = D * y / D := by
+    rw [hD]; ring
+  rw [e1, e2, mul_div_cancel_left₀ _ hdet, mul_div_cancel_left₀ _ hdet]
+
+/-- a rotation by ρ of a grid with pixel scales `s1, s2 ≠ 0` (the CROTA2 matrix) is non-singular -/
+theorem crota_det (s1 s2 ρ : ℝ) (h1 : s1 ≠ 0) (h2 : s2 ≠ 0) :
+    (s1 * cos ρ) * (s2 * cos ρ) - (-(s2 * sin ρ)) * (s1 * sin ρ) ≠ 0 := by
+  have : (s1 * cos ρ) * (s2 * cos ρ) - (-(s2 * sin ρ)) * (s1 * sin ρ) = s1 * s2 := by
+    linear_combination (s1 * s2) * (Real.sin_sq_add_cos_sq ρ)
+  rw [this]; exact mul_ne_zero h1 h2
 
 end Aegean.C16
